@@ -272,9 +272,41 @@ def confirm_c01(findings, tables):
     return kept, refuted
 
 
+def group_cases_monotone(tier):
+    """C13 on multi-slot leaves (5 / 6 slots, beyond the SlottedCC universes): the recorded group cases of C10 (random generators
+    asserted as unions, then one slot made redundant) are validated by TraceGroup.tla; here the action property Monotone of
+    SlottedCC is read off the same trace: a probe that compared equal through its OLD handle before the last union must still
+    compare equal through that handle afterwards."""
+    import small
+    cases = 40 if tier == "quick" else 300
+    trace = os.path.join(OUT, "tlc", "C13_group_trace.ndjson")
+    recs = jsonl(run_bin("default", "gr_replay", ["record", trace, cases]))
+    findings = [dict(r, prop="C13") for r in recs if r.get("kind") == "finding"]
+    ok, tst, evno, excerpt = small.validate_trace("C13_group_trace", "TraceGroup", {"TraceDeg": 2, "TraceMaxGens": 1}, trace, timeout=3000)
+    lines = [json.loads(l) for l in open(trace).read().splitlines()]
+    nprobes = 0
+    for n, e in enumerate(lines):
+        if not e["viaegraph"]:
+            continue
+        for i, pr in enumerate(e["probes"]):
+            if i % 2 == 0:                      # asked through the handle obtained before the redundancy union
+                nprobes += 1
+                if pr[3] and not pr[4]:
+                    findings.append({"kind": "finding", "prop": "C13", "site": "", "universe": "group-cases",
+                                     "what": "equality lost: equal invocations compare unequal after a later union",
+                                     "detail": {"event_no": n + 1, "deg": e["deg"], "gens": e["gens"] + e["more"], "redundant_position": e["red"],
+                                                "probe": pr[0], "trace_accepted_by_TraceGroup": ok}})
+                    break
+    return findings, {"group_cases": len(lines), "old_handle_probes": nprobes, "tlc_trace": tst, "trace_accepted": ok}
+
+
 def run_cc(prop, tier):
     t0 = time.time()
     mine, cov, tables = collect_cc(prop, tier)
+    if prop == "C13":
+        more, gcov = group_cases_monotone(tier)
+        mine = mine + more
+        cov["group_cases"] = gcov
     finish(prop, tier, t0, mine, cov, triggers=make_triggers(tables), assumptions=CC_ASSUMPTIONS)
 
 
